@@ -94,7 +94,7 @@ pub proof fn lemma_rvalid_from_elems(b: Seq<u8>, rp: Seq<RemovedMarker>, m: Seq<
     }
 }
 
-//@fn id=format file=code/formatter.rs name=format props=C01,C02,C04,C14
+//@fn id=format file=code/formatter.rs name=format props=C01,C02,C04,C12,C13,C14
 //@ret out
 //@requires
     forall|i: int| 0 <= i < removed_pos@.len() ==> (#[trigger] removed_pos@[i]).0 <= content.spec_bytes().len() && cb(content.spec_bytes(), removed_pos@[i].0 as int),
